@@ -3,8 +3,12 @@
    statements, [Example]s (non-vacuity, translator booleans, *_refuted witnesses by vm_compute),
    [Print Assumptions].  The model is Git/Model.v: Git states, the sub-commands xvc issues,
    git_auto_commit / git_auto_stage / git_checkout_ref / handle_git_automation with the control flow of
-   core/src/util/git.rs ([fixed_P20 s = true] is the tree as it is now, [false] the flow before the fix
-   of P20) and the call pattern of lib/src/cli/mod.rs ([dispatch]). *)
+   core/src/util/git.rs and the call pattern of lib/src/cli/mod.rs ([dispatch]).  Two switches select the
+   control flow: [fixed_P24 s = true] is the flow after the repair of P24 (no stash: `git commit` limited by
+   the pathspecs of `git add`, a plain `git checkout` for --from-ref); with [fixed_P24 s = false] the stash
+   sandwich, where [fixed_P20 s = true] pops the stash on every exit path (/repo since af0f35b8) and [false]
+   is the flow before that.  The check probes which flow the binary has on every run (argv through the
+   git shim) and claims the theorems of that flow. *)
 From Coq Require Import List Bool NArith.
 From XV Require Import Base.Amap Gen.GitignoreInitial Git.Model Git.Proofs.
 Import ListNotations.
@@ -23,31 +27,74 @@ Example managed_set_pinned :
   length gitignore_initial = 4%nat.
 Proof. repeat split. Qed.
 
-(* 1. CORE.  The tree as it is (stash popped on every exit path), any Git state, any setting without
-   --from-ref, any command: whatever the command writes under managed paths (.xvc/**, *.gitignore,
-   *.xvcignore), and whether or not the command and the Git calls succeed -- outside the class
-   "a path with a staged change also has an unstaged change or is written by the command" the user's
-   view is unchanged: index, work tree and HEAD tree on every path xvc does not manage, the stash list,
-   tags, the current branch and every other branch (with --to-branch b: every branch but b); and every
-   commit added to the log differs from its parent on managed paths only. *)
+(* 1. CORE.  Either repaired flow (P24: no stash; or at least P20: stash popped on every exit path), any Git
+   state, any setting without --from-ref, any command: whatever the command writes under managed paths
+   (.xvc/**, *.gitignore, *.xvcignore), and whether or not the command and the Git calls succeed -- outside
+   the class of the flow the user's view is unchanged: index, work tree and HEAD tree on every path xvc does
+   not manage, the stash list, tags, the current branch and every other branch (with --to-branch b: every
+   branch but b); and every commit added to the log differs from its parent on managed paths only.
+   The class [Known_class] follows the switch: for the stash sandwich it is "a path with a staged change also
+   has an unstaged change or is written by the command" (P24), for the repaired flow it is empty. *)
 Theorem automation_preserves_user_view s c g :
-  fixed_P20 s = true -> from_ref s = None ->
+  (fixed_P24 s = true \/ fixed_P20 s = true) -> from_ref s = None ->
   delta_managed (c_delta c) = true -> delta_managed (c_delta2 c) = true ->
-  Known_staged_and_unstaged_same_path c g = false ->
+  Known_class s c g = false ->
   same_user_view (to_branch s) g (snd (fst (dispatch s c g))) /\
   new_commits_managed_only g (snd (fst (dispatch s c g))).
 Proof. exact (dispatch_view_lemma s c g). Qed.
+
+(* 1a. The repaired flow (P24), with NO class exclusion: every Git state -- in particular a path with a staged
+   and an unstaged hunk, on user files, on ignore files, under .xvc/ --, every setting without --from-ref,
+   every command, every outcome of every Git call. *)
+Theorem C15_full_fixed s c g :
+  fixed_P24 s = true -> from_ref s = None ->
+  delta_managed (c_delta c) = true -> delta_managed (c_delta2 c) = true ->
+  same_user_view (to_branch s) g (snd (fst (dispatch s c g))) /\
+  new_commits_managed_only g (snd (fst (dispatch s c g))).
+Proof. exact (dispatch_view_fixed_lemma s c g). Qed.
+
+(* 1b. the class is empty under the repaired flow *)
+Theorem known_class_empty_when_fixed s c g : fixed_P24 s = true -> Known_class s c g = false.
+Proof. exact (known_class_fixed s c g). Qed.
+
+(* 1c. The repaired flow, every state, whatever the command writes (no restriction to managed paths here):
+   the stash list is literally the same and the work-tree file of EVERY path the command did not write --
+   managed or not -- is what it was: the automation itself never writes a file. *)
+Theorem fixed_flow_leaves_work_tree_and_stash_alone s c g :
+  fixed_P24 s = true -> from_ref s = None ->
+  g_stash (snd (fst (dispatch s c g))) = g_stash g /\
+  forall p, ~ In p (touched c) -> tget (g_wt (snd (fst (dispatch s c g)))) p = tget (g_wt g) p.
+Proof. exact (dispatch_wt24_lemma s c g). Qed.
+
+(* 1d. --from-ref under the repaired flow is one plain `git checkout <ref>`: when Git refuses, the invocation
+   stops with the state literally unchanged; when it succeeds the stash list is the same and (1e) every path
+   keeps its index entry and file unless it had no local change. *)
+Theorem from_ref_fixed_refused_changes_nothing s c g r :
+  fixed_P24 s = true -> from_ref s = Some r ->
+  match checkout_ref r g with
+  | (false, _) => dispatch s c g = (SFromRefFailed, g, [GCheckout r])
+  | (true, g1) => fst (fst (dispatch s c g)) <> SFromRefFailed /\ g_stash g1 = g_stash g /\
+                  exists t, snd (dispatch s c g) = GCheckout r :: t
+  end.
+Proof. exact (dispatch_from_ref24_lemma s c g r). Qed.
+Theorem checkout_carries_local_changes r g ok g1 : checkout_ref r g = (ok, g1) ->
+  g_stash g1 = g_stash g /\ g_branches g1 = g_branches g /\ g_tags g1 = g_tags g /\ g_log g1 = g_log g /\
+  (ok = false -> g1 = g) /\
+  (ok = true -> exists h' i, resolve g r = Some (h', i) /\ g_head g1 = h' /\
+     forall p, carried (tget (head_tree g) p) (tget (tree_of (g_log g) (Some i)) p)
+                       (tget (g_index g) p) (tget (g_wt g) p) (tget (g_index g1) p) (tget (g_wt g1) p) (ignored p)).
+Proof. exact (checkout_ref_spec r g ok g1). Qed.
 
 (* 2. For EVERY Git state (no class exclusion): a command that writes nothing, on a repository whose
    managed files are all staged as they are in the work tree, creates no commit -- whatever is staged,
    unstaged or stashed, whether or not the Git calls succeed. *)
 Theorem readonly_commands_commit_nothing s c g :
-  fixed_P20 s = true -> from_ref s = None -> c_delta c = [] -> c_delta2 c = [] ->
+  (fixed_P24 s = true \/ fixed_P20 s = true) -> from_ref s = None -> c_delta c = [] -> c_delta2 c = [] ->
   managed_clean g ->
   g_log (snd (fst (dispatch s c g))) = g_log g.
 Proof. exact (dispatch_readonly_all_lemma s c g). Qed.
 
-(* 3. For EVERY Git state, both control flows, every outcome of every Git call: without --from-ref the
+(* 3. For EVERY Git state, all three control flows, every outcome of every Git call: without --from-ref the
    tags never change; without --to-branch the current branch stays current and no other branch moves;
    with --to-branch b no branch but b changes. *)
 Theorem branch_switch_only_on_request s c g :
@@ -61,7 +108,7 @@ Theorem branch_switch_only_on_request s c g :
 Proof. exact (dispatch_refs_lemma s c g). Qed.
 
 (* 4. --skip-git, git.use_git = false, or neither auto_commit nor auto_stage: no Git call is made and
-   index, stash, HEAD, branches, tags and log are literally the same (every state, both flows). *)
+   index, stash, HEAD, branches, tags and log are literally the same (every state, all flows). *)
 Theorem automation_off_touches_nothing s c g :
   from_ref s = None -> c_kind c = KOther ->
   (skip_git s = true \/ use_git s = false \/ (auto_commit s = false /\ auto_stage s = false)) ->
@@ -77,9 +124,18 @@ Proof. exact (user_view_pointwise g p). Qed.
 
 (* ---- the statements are pinned -------------------------------------------------------------- *)
 Check automation_preserves_user_view :
-  forall s c g, fixed_P20 s = true -> from_ref s = None ->
+  forall s c g, (fixed_P24 s = true \/ fixed_P20 s = true) -> from_ref s = None ->
   delta_managed (c_delta c) = true -> delta_managed (c_delta2 c) = true ->
-  Known_staged_and_unstaged_same_path c g = false ->
+  negb (fixed_P24 s) && Known_staged_and_unstaged_same_path c g = false ->
+  ((forall p, uv_index (snd (fst (dispatch s c g))) p = uv_index g p) /\
+   (forall p, uv_wt (snd (fst (dispatch s c g))) p = uv_wt g p) /\
+   (forall p, uv_head (snd (fst (dispatch s c g))) p = uv_head g p) /\
+   g_stash (snd (fst (dispatch s c g))) = g_stash g /\
+   refs_rel (to_branch s) g (snd (fst (dispatch s c g)))) /\
+  (exists new, g_log (snd (fst (dispatch s c g))) = new ++ g_log g /\ ext_ok new (g_log g)).
+Check C15_full_fixed :
+  forall s c g, fixed_P24 s = true -> from_ref s = None ->
+  delta_managed (c_delta c) = true -> delta_managed (c_delta2 c) = true ->
   ((forall p, uv_index (snd (fst (dispatch s c g))) p = uv_index g p) /\
    (forall p, uv_wt (snd (fst (dispatch s c g))) p = uv_wt g p) /\
    (forall p, uv_head (snd (fst (dispatch s c g))) p = uv_head g p) /\
@@ -87,7 +143,7 @@ Check automation_preserves_user_view :
    refs_rel (to_branch s) g (snd (fst (dispatch s c g)))) /\
   (exists new, g_log (snd (fst (dispatch s c g))) = new ++ g_log g /\ ext_ok new (g_log g)).
 Check readonly_commands_commit_nothing :
-  forall s c g, fixed_P20 s = true -> from_ref s = None -> c_delta c = [] -> c_delta2 c = [] ->
+  forall s c g, (fixed_P24 s = true \/ fixed_P20 s = true) -> from_ref s = None -> c_delta c = [] -> c_delta2 c = [] ->
   (forall p, managed p = true -> tget (g_wt g) p = tget (g_index g) p) ->
   g_log (snd (fst (dispatch s c g))) = g_log g.
 
@@ -115,9 +171,13 @@ Example managed_paths :
 Proof. vm_compute. repeat split. Qed.
 
 Definition base_tree : tree := [(p_gi, [0]); (p_xi, [0]); (p_ec1, [1]); (p_f, [1; 1]); (p_src, [1; 1])].
+(* [st fx tb]: the stash sandwich (fx = is P20 fixed);  [st24 tb]: the repaired flow *)
 Definition st (fx : bool) (tb : option name) : settings :=
   {| use_git := true; auto_commit := true; auto_stage := false; skip_git := false; to_branch := tb;
-     from_ref := None; fixed_P20 := fx |}.
+     from_ref := None; fixed_P20 := fx; fixed_P24 := false |}.
+Definition st24 (tb : option name) : settings :=
+  {| use_git := true; auto_commit := true; auto_stage := false; skip_git := false; to_branch := tb;
+     from_ref := None; fixed_P20 := true; fixed_P24 := true |}.
 Definition cmd_readonly : cmd := {| c_kind := KOther; c_ok := true; c_delta := []; c_delta2 := [] |}.
 Definition cmd_track : cmd :=
   {| c_kind := KOther; c_ok := true; c_delta := [(p_ec2, Some [2]); (p_data_gi, Some [7])]; c_delta2 := [] |}.
@@ -134,7 +194,7 @@ Definition g_user : git :=
 (* non-vacuity of theorem 1: the hypotheses hold, the run goes through the whole sandwich twice, makes
    one commit, and the new commit holds the two files the command wrote and no user file *)
 Example view_example :
-  Known_staged_and_unstaged_same_path cmd_track g_user = false /\
+  Known_class (st true None) cmd_track g_user = false /\
   delta_managed (c_delta cmd_track) = true /\
   fst (fst (dispatch (st true None) cmd_track g_user)) = SOk /\
   snd (dispatch (st true None) cmd_track g_user) =
@@ -157,7 +217,7 @@ Proof. vm_compute. repeat split. Qed.
 
 (* non-vacuity of theorem 2 *)
 Example readonly_example :
-  Known_staged_and_unstaged_same_path cmd_readonly g_user = false /\
+  Known_class (st true None) cmd_readonly g_user = false /\
   (forall p, managed p = true -> tget (g_wt g_user) p = tget (g_index g_user) p) /\
   snd (dispatch (st true None) cmd_readonly g_user) =
     [GDiffCached; GStashPushStaged; GAddVerbose; GStashPopIndex; GDiffCached; GStashPushStaged; GAddVerbose; GStashPopIndex].
@@ -167,19 +227,21 @@ Proof.
 Qed.
 
 (* ---- the full statement and its refutations --------------------------------------------------- *)
-(* C15 without the class exclusion *)
-Definition C15_full : Prop :=
-  forall s c g, fixed_P20 s = true -> from_ref s = None ->
+(* C15 without the class exclusion, for the flow selected by [f24] *)
+Definition C15_full (f24 : bool) : Prop :=
+  forall s c g, fixed_P24 s = f24 -> fixed_P20 s = true -> from_ref s = None ->
   delta_managed (c_delta c) = true -> delta_managed (c_delta2 c) = true ->
   same_user_view (to_branch s) g (snd (fst (dispatch s c g))).
 (* C15 for the control flow before the fix of P20, with the class exclusion *)
 Definition C15_before_fix_P20 : Prop :=
   forall s c g, from_ref s = None ->
   delta_managed (c_delta c) = true -> delta_managed (c_delta2 c) = true ->
-  Known_staged_and_unstaged_same_path c g = false ->
+  Known_class s c g = false ->
   same_user_view (to_branch s) g (snd (fst (dispatch s c g))).
+Theorem C15_full_holds_when_fixed : C15_full true.
+Proof. intros s c g H24 _ Hfr Hd1 Hd2. exact (proj1 (dispatch_view_fixed_lemma s c g H24 Hfr Hd1 Hd2)). Qed.
 
-(* P24 (open finding): f.txt has a staged hunk (region 0) and an unstaged hunk (region 1); a read-only
+(* P24 (the stash sandwich; repaired by repo-patches/83): f.txt has a staged hunk (region 0) and an unstaged hunk (region 1); a read-only
    command: `stash push --staged` succeeds, `stash pop --index` refuses, the staged hunk is left in the
    stash and gone from index and work tree *)
 Definition g_p24 : git :=
@@ -189,7 +251,7 @@ Definition g_p24 : git :=
      g_stash := [];
      g_log := [ {| c_id := 1; c_parent := None; c_tree := base_tree |} ] |}.
 Example p24_outcome :
-  Known_staged_and_unstaged_same_path cmd_readonly g_p24 = true /\
+  Known_class (st true None) cmd_readonly g_p24 = true /\
   fst (fst (dispatch (st true None) cmd_readonly g_p24)) = SAutoFailed 0 /\
   snd (dispatch (st true None) cmd_readonly g_p24) = [GDiffCached; GStashPushStaged; GAddVerbose; GStashPopIndex] /\
   (let g' := snd (fst (dispatch (st true None) cmd_readonly g_p24)) in
@@ -198,9 +260,9 @@ Proof. vm_compute. repeat split. Qed.
 Example p24_readonly_still_commits_nothing :
   managed_clean g_p24 /\ g_log (snd (fst (dispatch (st true None) cmd_readonly g_p24))) = g_log g_p24.
 Proof. split; [apply managed_clean_b_ok; vm_compute; reflexivity|vm_compute; reflexivity]. Qed.
-Theorem staged_and_unstaged_refuted : ~ C15_full.
+Theorem staged_and_unstaged_refuted : ~ C15_full false.
 Proof.
-  intros H. specialize (H (st true None) cmd_readonly g_p24 eq_refl eq_refl eq_refl eq_refl).
+  intros H. specialize (H (st true None) cmd_readonly g_p24 eq_refl eq_refl eq_refl eq_refl eq_refl).
   destruct H as (_ & _ & _ & Hs & _). vm_compute in Hs. discriminate.
 Qed.
 
@@ -214,7 +276,7 @@ Definition g_p20 : git :=
      g_stash := [];
      g_log := [ {| c_id := 1; c_parent := None; c_tree := base_tree |} ] |}.
 Example p20_outcome :
-  Known_staged_and_unstaged_same_path cmd_readonly g_p20 = false /\
+  Known_class (st false None) cmd_readonly g_p20 = false /\
   (let g' := snd (fst (dispatch (st false None) cmd_readonly g_p20)) in
    tget (g_index g') p_user = None /\ tget (g_wt g') p_user = None /\ length (g_stash g') = 1%nat) /\
   (let g' := snd (fst (dispatch (st true None) cmd_readonly g_p20)) in
@@ -226,10 +288,81 @@ Proof.
   destruct H as (_ & _ & _ & Hs & _). vm_compute in Hs. discriminate.
 Qed.
 
+(* ---- the repaired flow on the formerly excluded states ------------------------------------------ *)
+(* the P24 state under the repaired flow: a read-only command makes two `git add` calls and nothing else;
+   a state-changing command commits exactly what it wrote; the staged hunk stays staged, the unstaged hunk
+   stays in the work tree, the stash stays empty *)
+Example p24_state_under_repaired_flow :
+  Known_class (st24 None) cmd_track g_p24 = false /\
+  dispatch (st24 None) cmd_readonly g_p24 = (SOk, g_p24, [GAddVerbose; GAddVerbose]) /\
+  fst (fst (dispatch (st24 None) cmd_track g_p24)) = SOk /\
+  snd (dispatch (st24 None) cmd_track g_p24) = [GAddVerbose; GCommitOnly; GAddVerbose] /\
+  (let g' := snd (fst (dispatch (st24 None) cmd_track g_p24)) in
+   length (g_log g') = 2%nat /\ tget (head_tree g') p_ec2 = Some [2] /\ tget (head_tree g') p_data_gi = Some [7] /\
+   tget (head_tree g') p_f = Some [1; 1] /\ tget (g_index g') p_f = Some [2; 1] /\ tget (g_wt g') p_f = Some [2; 3] /\
+   g_stash g' = []).
+Proof. vm_compute. repeat split. Qed.
+(* staged + unstaged hunks on an ignore file and on a file under .xvc/, a staged new user file and a staged
+   hunk of a user file beside them: in the stash sandwich `stash push --staged` exits 1 after saving a stash
+   entry (the hunks of .xvc/ec/1 overlap) and the entry stays; the repaired flow commits the
+   two managed files as they are in the work tree (they are xvc's to commit) and leaves the user's files
+   staged as they were *)
+Definition g_p24m : git :=
+  {| g_head := OnBranch n_main; g_branches := [(n_main, 1)]; g_tags := [];
+     g_index := (p_new, [5]) :: (p_f, [2; 1]) :: (p_data_gi, [2; 1]) :: (p_ec1, [4]) :: (p_data_gi, [1; 1]) :: base_tree;
+     g_wt := (p_new, [5]) :: (p_f, [2; 3]) :: (p_data_gi, [2; 3]) :: (p_ec1, [6]) :: (p_data_gi, [1; 1]) :: base_tree;
+     g_stash := [];
+     g_log := [ {| c_id := 1; c_parent := None; c_tree := (p_data_gi, [1; 1]) :: base_tree |} ] |}.
+Example p24_on_managed_files :
+  Known_class (st true None) cmd_readonly g_p24m = true /\ Known_class (st24 None) cmd_readonly g_p24m = false /\
+  fst (fst (dispatch (st true None) cmd_readonly g_p24m)) = SAutoFailed 0 /\
+  snd (dispatch (st true None) cmd_readonly g_p24m) = [GDiffCached; GStashPushStaged] /\
+  length (g_stash (snd (fst (dispatch (st true None) cmd_readonly g_p24m)))) = 1%nat /\
+  fst (fst (dispatch (st24 None) cmd_readonly g_p24m)) = SOk /\
+  snd (dispatch (st24 None) cmd_readonly g_p24m) = [GAddVerbose; GCommitOnly; GAddVerbose] /\
+  (let g' := snd (fst (dispatch (st24 None) cmd_readonly g_p24m)) in
+   tget (head_tree g') p_data_gi = Some [2; 3] /\ tget (head_tree g') p_ec1 = Some [6] /\
+   tget (head_tree g') p_new = None /\ tget (head_tree g') p_f = Some [1; 1] /\
+   tget (g_index g') p_new = Some [5] /\ tget (g_index g') p_f = Some [2; 1] /\ tget (g_wt g') p_f = Some [2; 3] /\
+   tget (g_wt g') p_data_gi = Some [2; 3] /\ g_stash g' = []).
+Proof. vm_compute. repeat split. Qed.
+(* --to-branch under the repaired flow: the first call creates the branch and commits there, the second fails
+   on `checkout -b` (as before); nothing of the user's moves *)
+Example to_branch_repaired_flow :
+  fst (fst (dispatch (st24 (Some n_feat)) cmd_track g_p24)) = SAutoFailed 1 /\
+  snd (dispatch (st24 (Some n_feat)) cmd_track g_p24) = [GCheckoutB n_feat; GAddVerbose; GCommitOnly; GCheckoutB n_feat] /\
+  (let g' := snd (fst (dispatch (st24 (Some n_feat)) cmd_track g_p24)) in
+   head_branch g' = Some n_feat /\ bget (g_branches g') n_main = Some 1 /\ bget (g_branches g') n_feat = Some 2 /\
+   tget (g_index g') p_f = Some [2; 1] /\ tget (g_wt g') p_f = Some [2; 3] /\ g_stash g' = []).
+Proof. vm_compute. repeat split. Qed.
+(* --from-ref on the P24 state (tag v on the same commit): the stash sandwich around the checkout loses the
+   staged hunk as well; the plain checkout carries both hunks *)
+Definition g_p24t : git :=
+  {| g_head := g_head g_p24; g_branches := g_branches g_p24; g_tags := [([118], 1)]; g_index := g_index g_p24;
+     g_wt := g_wt g_p24; g_stash := []; g_log := g_log g_p24 |}.
+Definition with_ref (s : settings) : settings :=
+  {| use_git := use_git s; auto_commit := auto_commit s; auto_stage := auto_stage s; skip_git := skip_git s;
+     to_branch := to_branch s; from_ref := Some (RName [118]); fixed_P20 := fixed_P20 s; fixed_P24 := fixed_P24 s |}.
+Example from_ref_on_p24_state :
+  (let r := dispatch (with_ref (st true None)) cmd_readonly g_p24t in
+   fst (fst r) = SFromRefFailed /\ snd r = [GDiffCached; GStashPushStaged; GCheckout (RName [118]); GStashPopIndex] /\
+   tget (g_index (snd (fst r))) p_f = Some [1; 1] /\ length (g_stash (snd (fst r))) = 1%nat) /\
+  (let r := dispatch (with_ref (st24 None)) cmd_readonly g_p24t in
+   fst (fst r) = SOk /\ snd r = [GCheckout (RName [118]); GAddVerbose; GAddVerbose] /\
+   tget (g_index (snd (fst r))) p_f = Some [2; 1] /\ tget (g_wt (snd (fst r))) p_f = Some [2; 3] /\
+   g_stash (snd (fst r)) = [] /\ g_head (snd (fst r)) = Detached 1).
+Proof. vm_compute. repeat split. Qed.
+
 Print Assumptions automation_preserves_user_view.
 Print Assumptions readonly_commands_commit_nothing.
 Print Assumptions branch_switch_only_on_request.
 Print Assumptions automation_off_touches_nothing.
 Print Assumptions user_view_is_pointwise.
+Print Assumptions C15_full_fixed.
+Print Assumptions known_class_empty_when_fixed.
+Print Assumptions fixed_flow_leaves_work_tree_and_stash_alone.
+Print Assumptions from_ref_fixed_refused_changes_nothing.
+Print Assumptions checkout_carries_local_changes.
+Print Assumptions C15_full_holds_when_fixed.
 Print Assumptions staged_and_unstaged_refuted.
 Print Assumptions staged_file_lost_refuted.
